@@ -34,7 +34,7 @@ def describe(tier):
                 "value == documented combination of the verdicts each shipped constraint gives alone; "
                 f"flat chains with {LONG[tier]} key occurrences x operator patterns {LONG_OPS} (2 or 3 keys cycling under all assignments; all keys distinct under "
                 "all-true / all-false with <= 1 deviation: deviation-bounded, not all 2^L); expressions with <= 3 leaves also through the library's DictBased / "
-                "ContentEvaluationResultBased format constraint evaluators and user-style method based evaluators. Non-trivial = (expression, assignment) pairs with >= 2 "
+                "ContentEvaluationResultBased format constraint evaluators (fresh and one shared EvaluatableData object) and user-style method based evaluators. Non-trivial = (expression, assignment) pairs with >= 2 "
                 "operators.",
         "bounds": {"leaves": BOUNDS[tier]},
         "exhaustive": True,
@@ -44,7 +44,7 @@ def describe(tier):
 
 def plan(tier, seed):
     items = [{"fam": "empty", "seed": seed}]
-    for mode in ("hardcoded", "cer", "methods"):
+    for mode in ("hardcoded", "cer", "methods", "cer-shared"):
         for n in (1, 2, 3):
             items.append({"fam": "modes", "mode": mode, "n": n, "seed": seed})
     # completion orders of suspending evaluate_<key> methods (virtual event loop): "under the evaluated single constraints"
